@@ -114,10 +114,54 @@ func genC40(c *Ctx, dir string) *c40case {
 			return fmt.Sprintf("var y = ?(range %d | each {|x| fail z }); put ok", n)
 		}
 	}
+	// Wrappers put a snippet on other exit paths: inside captures, exception
+	// handlers, loops, functions, parallel callbacks, and as a pipeline stage
+	// whose reader consumes everything, one item, or nothing. None of them
+	// opens a file explicitly or starts a background job.
+	lbl := 0
+	var wrap func(code string, depth int) string
+	wrap = func(code string, depth int) string {
+		if depth == 0 || !w.Chance(1, 2) {
+			return code
+		}
+		lbl++
+		var out string
+		switch w.Draw(14) {
+		case 0:
+			out = fmt.Sprintf("try { %s } catch e { put caught }", code)
+		case 1:
+			out = fmt.Sprintf("try { %s } finally { echo fin > %s }", code, f2)
+		case 2:
+			out = fmt.Sprintf("var w%d = ?(%s)", lbl, code)
+		case 3:
+			out = fmt.Sprintf("var w%d = [(%s)]", lbl, code)
+		case 4:
+			out = fmt.Sprintf("peach {|_| %s } [1 2 3]", code)
+		case 5:
+			out = fmt.Sprintf("fn h%d { %s }; h%d", lbl, code, lbl)
+		case 6:
+			out = fmt.Sprintf("{ %s } > %s", code, f2)
+		case 7:
+			out = fmt.Sprintf("{ %s } | count", code)
+		case 8:
+			out = fmt.Sprintf("{ %s } | nop", code)
+		case 9:
+			out = fmt.Sprintf("{ %s } | take 1", code)
+		case 10:
+			out = fmt.Sprintf("run-parallel { %s } { %s }", code, snip())
+		case 11:
+			out = fmt.Sprintf("for i [1 2] { %s }", code)
+		case 12:
+			out = fmt.Sprintf("{ %s } 2>&1 | each {|x| put $x } | count", code)
+		default:
+			out = fmt.Sprintf("each {|_| %s } [1 2] | each {|x| fail downstream }", code)
+		}
+		return wrap(out, depth-1)
+	}
 	k := w.Range(1, 3)
 	var parts []string
 	for i := 0; i < k; i++ {
-		parts = append(parts, snip())
+		parts = append(parts, wrap(snip(), 2))
 	}
 	cs := &c40case{Code: strings.Join(parts, "; "), Reps: 6, PipeCap: []int{4096, 65536}[w.Draw(2)]}
 	if c.Thorough() {
